@@ -23,8 +23,8 @@ PREFIX_PROPS = {"c03_": ("C03",), "c10_": ("C10",), "c13_": ("C13",), "c02_": ("
 LOOPG = {"C03", "C13", "C12"}
 DEPS = {
     "C01": {"C01"}, "C02": {"C02", "C19", "C04"} | LOOPG, "C03": {"C03"}, "C04": {"C04"} | LOOPG, "C05": {"C05", "C19", "C04", "C02"} | LOOPG, "C10": {"C10", "C03"},
-    "C12": {"C12"}, "C13": {"C13", "C03"}, "C17": {"C17"}, "C19": {"C19", "C04"} | LOOPG, "C14": {"C14"} | LOOPG, "C18": {"C18"} | LOOPG, "C15": {"C15", "C12"},
-    "C16": {"C16"}, "C09": {"C09"} | LOOPG, "C11": {"C11"}, "C08": {"C08"}, "C20": {"C20"}, "C07": {"C07"},
+    "C12": {"C12"}, "C13": {"C13", "C03"}, "C17": {"C17"}, "C19": {"C19", "C04"} | LOOPG, "C14": {"C14"} | LOOPG, "C18": {"C18", "C09"} | LOOPG, "C15": {"C15", "C12"},
+    "C16": {"C16"}, "C09": {"C09", "C18", "C10"} | LOOPG, "C11": {"C11"}, "C08": {"C08"}, "C20": {"C20"}, "C07": {"C07"},
 }
 
 
